@@ -12,8 +12,10 @@
 (*   through a reduction / through unchecked edges, with the flag on and    *)
 (*   off; NAMED shapes whose edges are derived from output names, rename   *)
 (*   steps and MapSpecs; SIBLING shapes whose consumer takes two array      *)
-(*   inputs in every writable combination of access modes); the expected    *)
-(*   outcome of Pipeline([...]) is printed.                                 *)
+(*   inputs in every writable combination of access modes; SUPPLY shapes    *)
+(*   whose consumer parameters also carry a default or a bound value,      *)
+(*   attached in every way pipefunc offers); the expected outcome of        *)
+(*   Pipeline([...]) is printed.                                            *)
 (*                                                                         *)
 (* The universe is the sequence USeq (a set, ordered by TLC); pairs and    *)
 (* pipelines refer to annotations by their index in USeq, the ANN lines    *)
@@ -213,6 +215,52 @@ SibDesc(r, P, C) ==
           [] r.fam = "sibr" -> [prods |-> <<PR(<<"y">>, <<P>>, MS(<<xi>>, <<yi>>))>>,
                                 cons  |-> [params |-> <<Par("y", C), Par("q", NoAnn)>>, ms |-> ConsumerMS(ins, "z")]]
 
+(* SUPPLY shapes (TypeCompat section 8): the consumer parameter under test -- and/or the other parameter of   *)
+(* the consumer -- can get a value in another way than from the pipeline.                                     *)
+(*   family supd   f() -> y:P                          ;  g(y: C, k: int)                       direct         *)
+(*   family supe   f: x[i] -> y[i] returns P           ;  g: y[i] -> z[i]   takes (y: C, k: int)  element-wise  *)
+(*   family supr   f: x[i] -> y[i] returns P           ;  g(y: C, k: int)  without MapSpec        reduction     *)
+(*   family supp   f: x[i, j] -> y[i, j] returns P     ;  g: y[i, :] -> z[i] takes (y: C, k: int) partial red.  *)
+(*   family supm   f() -> (s, d) : tuple[P, int]       ;  g(s: C, d: int)   BOTH parameters are outputs of f   *)
+(* how the value is attached (`how`) and what it is (`sup`, TypeCompat!SupplyKinds):                          *)
+(*   none     nothing                                                            sup = none                   *)
+(*   sig      def g(y: C = 0, ..)                                                sup = sig                    *)
+(*   ctor     PipeFunc(g, .., defaults={y: 0})                                   sup = default                *)
+(*   update   g.update_defaults({y: 0}) after the PipeFunc was made              sup = default                *)
+(*   pipe     pipeline.update_defaults({y: 0}) (the functions of that pipeline are then used)  sup = default  *)
+(*   bctor    PipeFunc(g, .., bound={y: 0})                                      sup = bound                  *)
+(*   bupdate  g.update_bound({y: 0})                                             sup = bound                  *)
+(* m1 = how of the parameter under test (y / s, carrying the pair (P, C)), m2 = how of the other parameter    *)
+(* (k, a pipeline input / d, a compatible int edge).  A bound parameter cannot be indexed by the consumer's   *)
+(* own MapSpec (TypeCompat!SupplyWellFormed): supe / supp have no bound m1.                                    *)
+SupFams   == {"supd", "supe", "supr", "supp", "supm"}
+SupHows   == {"none", "sig", "ctor", "update", "pipe", "bctor", "bupdate"}
+SupHows2  == {"none", "ctor", "bctor"}
+HowSup(how) == CASE how = "none" -> "none" [] how = "sig" -> "sig"
+                 [] how \in {"ctor", "update", "pipe"} -> "default" [] how \in {"bctor", "bupdate"} -> "bound"
+SupVia(fam) == CASE fam = "supd" -> "direct" [] fam = "supe" -> "emap" [] fam = "supr" -> "reduce"
+                 [] fam = "supp" -> "preduce" [] fam = "supm" -> "direct"
+SupParam(n, t, how) == [n |-> n, t |-> t, sup |-> HowSup(how), how |-> how]
+xij == Arr("x", <<"i", "j">>)   yij == Arr("y", <<"i", "j">>)
+SupDesc(r, P, C) ==
+    LET yk == <<SupParam("y", C, r.m1), SupParam("k", IntT, r.m2)>> IN
+    CASE r.fam = "supd" -> [prods |-> <<PR(<<"y">>, <<P>>, NoMS)>>,                  cons |-> [params |-> yk, ms |-> NoMS]]
+      [] r.fam = "supe" -> [prods |-> <<PR(<<"y">>, <<P>>, MS(<<xi>>, <<yi>>))>>,    cons |-> [params |-> yk, ms |-> MS(<<yi>>, <<zi>>)]]
+      [] r.fam = "supr" -> [prods |-> <<PR(<<"y">>, <<P>>, MS(<<xi>>, <<yi>>))>>,    cons |-> [params |-> yk, ms |-> NoMS]]
+      [] r.fam = "supp" -> [prods |-> <<PR(<<"y">>, <<P>>, MS(<<xij>>, <<yij>>))>>,  cons |-> [params |-> yk, ms |-> MS(<<Arr("y", <<"i", ":">>)>>, <<zi>>)]]
+      [] r.fam = "supm" -> [prods |-> <<PR(<<"s", "d">>, <<P, IntT>>, NoMS)>>,
+                            cons  |-> [params |-> <<SupParam("s", C, r.m1), SupParam("d", IntT, r.m2)>>, ms |-> NoMS]]
+SupTable == {r \in {[name |-> fam \o "_" \o m1 \o "_" \o m2, fam |-> fam, m1 |-> m1, m2 |-> m2] :
+                        fam \in SupFams, m1 \in SupHows, m2 \in SupHows2} : SupplyWellFormed(SupDesc(r, IntT, IntT).cons)}
+SupShapes   == {r.name : r \in SupTable}
+SupRow(name) == CHOOSE r \in SupTable : r.name = name
+ASSUME Cardinality(SupTable) = 3 * 21 + 2 * 15 /\ Cardinality(SupShapes) = Cardinality(SupTable)
+ASSUME SupShapes \cap (Shapes \cup NamedShapes \cup SibShapes \cup {"row"}) = {}
+(* the way a value is attached does not matter for the specification: only its kind does *)
+ASSUME \A r1, r2 \in SupTable : (r1.fam = r2.fam /\ HowSup(r1.m1) = HowSup(r2.m1) /\ HowSup(r1.m2) = HowSup(r2.m2)) =>
+          \A v \in BOOLEAN : ConstructNet(SupDesc(r1, IntT, StrT).prods, SupDesc(r1, IntT, StrT).cons, v)
+                              = ConstructNet(SupDesc(r2, IntT, StrT).prods, SupDesc(r2, IntT, StrT).cons, v)
+
 (* annotations used on pipeline edges *)
 PQuick == {IntT, BoolT, FloatT, StrT, NoneT, AnyT, NoAnn, TVar, At("list"),
            ListOf(IntT), ListOf(BoolT), ListOf(AnyT), SetOf(IntT), DictOf(StrT, IntT),
@@ -231,7 +279,8 @@ PSib == IF Tier = "quick" THEN PSibQuick ELSE PQuick
 ASSUME PSib \subseteq PSet
 
 WellFormedPipe(shape, P) ==                                                                           \* tuple[NoAnn, int] cannot be written
-    (shape \in ({"multi2", "multi2x"} \cup RenameShapes) \/ (shape \in SibShapes /\ SibOf(shape).fam = "sib2")) => P.k # "NoAnn"
+    (shape \in ({"multi2", "multi2x"} \cup RenameShapes) \/ (shape \in SibShapes /\ SibOf(shape).fam = "sib2")
+       \/ (shape \in SupShapes /\ SupRow(shape).fam = "supm")) => P.k # "NoAnn"
 
 (* Cases.  To let TLC's workers share the work inside one process, the cases are the SUCCESSORS of one  *)
 (* "row" state per first/producer annotation: pairs row i -> all [i, j]; pipes row p -> all pipelines  *)
@@ -243,13 +292,14 @@ PipeCases(p) == {[shape |-> s, p |-> p, c |-> Idx(C), validate |-> v] :
                     s \in {x \in Shapes \cup NamedShapes : WellFormedPipe(x, USeq[p])}, C \in PSet, v \in BOOLEAN}
                 \cup (IF USeq[p] \notin PSib THEN {}
                       ELSE {[shape |-> s, p |-> p, c |-> Idx(C), validate |-> v] :
-                               s \in {x \in SibShapes : WellFormedPipe(x, USeq[p])}, C \in PSib, v \in BOOLEAN})
+                               s \in {x \in SibShapes \cup SupShapes : WellFormedPipe(x, USeq[p])}, C \in PSib, v \in BOOLEAN})
 
 ---------------------------------------------------------------------------
 PairOut(c) == LET A == USeq[c.i]  B == USeq[c.j]
               IN [a |-> A, b |-> B, v |-> Verdict(A, B), why |-> Why(A, B)]
-PipeOut(c) == IF c.shape \in SibShapes
-              THEN LET d  == SibDesc(SibOf(c.shape), USeq[c.p], USeq[c.c])
+PipeOut(c) == IF c.shape \in SibShapes \cup SupShapes
+              THEN LET d  == IF c.shape \in SibShapes THEN SibDesc(SibOf(c.shape), USeq[c.p], USeq[c.c])
+                             ELSE SupDesc(SupRow(c.shape), USeq[c.p], USeq[c.c])
                        es == SetToSeq(NetEdges(d.prods, d.cons))
                    IN [edges |-> es, expect |-> ConstructNet(d.prods, d.cons, c.validate),
                        ev |-> [i \in DOMAIN es |-> EdgeVerdict(es[i].p, es[i].c, es[i].via)],
@@ -339,12 +389,27 @@ InvSib           == (IsPipe /\ case.shape \in SibShapes) =>
                         /\ \A k \in DOMAIN out.prods : \A name \in ArrNames(out.prods[k].ms.outs) :
                                LawViaLocal(out.prods[k].ms, out.cons.ms, name)
 
+(* supply shapes: a default -- however attached, on the wired parameter or on the other one -- leaves the      *)
+(* outcome that of the plain 2-function shape; a bound value on the parameter under test leaves nothing to     *)
+(* reject (the other edge is compatible); laws of TypeCompat section 8                                          *)
+InvSup           == (IsPipe /\ case.shape \in SupShapes) =>
+                        LET r   == SupRow(case.shape)  P == USeq[case.p]  C == USeq[case.c]
+                            cut == CutsEdge(HowSup(r.m1))
+                        IN
+                        /\ SupplyWellFormed(out.cons)
+                        /\ out.expect = Construct(out.edges, case.validate)
+                        /\ LawDefaultKeepsEdges(out.prods, out.cons)
+                        /\ LawBoundCutsOwnEdge(out.prods, out.cons)
+                        /\ LawEdgewise(out.prods, out.cons)
+                        /\ ~cut => out.expect = Construct(<<E(P, C, SupVia(r.fam))>>, case.validate)
+                        /\ cut => (out.expect = "accept" /\ \A e \in NetEdges(out.prods, out.cons) : e.n # out.cons.params[1].n)
+
 (* export *)
 VCode(v) == CASE v = "no" -> 0 [] v = "yes" -> 1 [] v = "either" -> 2
 WCode(w) == (IF "tv" \in w THEN 1 ELSE 0) + (IF "bare" \in w THEN 2 ELSE 0) + (IF "num" \in w THEN 4 ELSE 0)
 Emit == IF IsPair THEN PrintT(<<"PAIR", case.i, case.j, VCode(out.v), WCode(out.why)>>)
         ELSE IF IsPipe
-        THEN IF case.shape \in SibShapes
+        THEN IF case.shape \in SibShapes \cup SupShapes
              THEN PrintT(<<"PIPE", ToJson([shape |-> case.shape, p |-> case.p, c |-> case.c, validate |-> case.validate,
                                            edges |-> out.edges, ev |-> out.ev, expect |-> out.expect,
                                            prods |-> out.prods, cons |-> out.cons])>>)
